@@ -63,6 +63,7 @@ def generate(rng, tier):
 ILEVELS = ['VInhP', 'VInhC', 'VInhG']
 ITABLES = ['v_inh_p', 'v_inh_c', 'v_inh_g']
 _iclasses = None
+_iconns = {}
 
 
 def iclasses():
@@ -128,11 +129,26 @@ def gen_inherit(rng):
 def run_inherit(case):
     from sqlobject.sqlite.sqliteconnection import SQLiteConnection
     from sqlobject import dberrors
-    conn = SQLiteConnection(':memory:', cache=bool(case['cfg']['cache']))
+    from sqlobject.cache import CacheSet
     cls = iclasses()
+    conn = _iconns.get(bool(case['cfg']['cache']))
+    if conn is None:
+        conn = SQLiteConnection(':memory:', cache=bool(case['cfg']['cache']))
+        for c in cls:
+            c._connection = conn
+            c.createTable()
+        _iconns[bool(case['cfg']['cache'])] = conn
+    else:
+        raw = conn.getConnection()
+        cur = raw.cursor()
+        for c in cls:
+            cur.execute('DELETE FROM %s' % c.sqlmeta.table)
+        cur.execute('DELETE FROM sqlite_sequence')
+        cur.close()
+        conn.releaseConnection(raw)
+    conn.cache = CacheSet(cache=conn.doCache)
     for c in cls:
         c._connection = conn
-        c.createTable()
     state = {'n': 0, 'fault': None, 'log': []}
     orig = conn._executeRetry
 
@@ -197,13 +213,12 @@ def run_inherit(case):
                 out = ['exc', type(e).__name__]
             state['fault'] = None
             import gc
-            gc.collect()
+            gc.collect(0)
             steps.append({'out': out, 'before': before_t, 'after': dump(), 'cached_before': before_c, 'cached_after': cached(),
                           'log': list(state['log']), 'target_level': target_level})
     finally:
         conn._executeRetry = orig
         conn.cache.clear()
-        conn.close()
     return {'isteps': steps}
 
 
